@@ -290,12 +290,30 @@ def operators(ctx, world):
     ctx.describe("A15", "differential-operator wiring: unary_to_nary selects and substitutes the same argument index (int and tuple/list forms) and passes kwargs through; operators return the primal/aux objects exactly as produced by make_vjp; jacobian's shape is <output shape> + <input shape> over the output space's standard basis; holomorphic_grad = grad(real o f); deriv takes element [1] of make_jvp; checkpoint registers element [0] of make_vjp(fun, argnum)(*args, **kwargs) on the primitive it returns")
     ev = world.ev
     # ---- unary_to_nary
-    r, syms, m, node, sc = eval_function(world, "autograd.wrap_util", "unary_to_nary.nary_operator.nary_f")
+    # unary_to_nary(unary_operator) -> nary_operator(fun, argnum=0, *op_args, **op_kwargs) -> nary_f(*args, **kwargs):
+    # each level is the (possibly wrapped) function the previous one returns - found by value
+    from ..kfun import returned_closure
+
+    clo1, top1, osy1, m, fn1, osc1 = returned_closure(world, "autograd.wrap_util", "unary_to_nary")
+    uop = osy1["#0"]
+    fun = T("sym", name="fun", role="param")
+    argnum = T("sym", name="argnum", role="param")
+    op_args = T("sym", name="nary_op_args", role="param", star=True)
+    op_kw = T("sym", name="nary_op_kwargs", role="param", dstar=True)
+    lvl2 = strip_seq(ev.apply(clo1, [fun, argnum, T("star", x=op_args)], {}, [op_kw]))
+    t_ = lvl2
+    for _ in range(6):
+        if t_ is None or t_.op == "closure":
+            break
+        t_ = strip_seq(t_.args[-1]) if (t_.op == "call" and t_.args) else None
+    if t_ is None or t_.op != "closure":
+        raise AnalysisError("unary_to_nary's operator no longer returns a (wrapped) nested function")
+    node = t_.fnode
     loc = loc_of(m, node)
     q = "autograd.wrap_util.unary_to_nary"
-    args, kw = syms["*"], syms["**"]
-    outer = sc.parent
-    argnum, fun, uop = outer.lookup("argnum"), outer.lookup("fun"), outer.parent.lookup("unary_operator") if outer.parent else None
+    args = T("sym", name="args", role="param", star=True)
+    kw = T("sym", name="kwargs", role="param", dstar=True)
+    r = ev.apply(t_, [T("star", x=args)], {}, [kw])
     from ..tutil import expand, specialise, unseq
 
     is_int_test = lambda a: a.op == "call" and a.fn.op == "ref" and a.fn.ref.qual.endswith("isinstance") and len(a.args) == 2 and a.args[0] is argnum and a.args[1].op == "ref" and a.args[1].ref.qual == "builtins.int"
@@ -493,9 +511,9 @@ def operators(ctx, world):
     if len(regs) == 1 and len(regs[0].args) == 2:
         wiring = is_prim(rv) and (regs[0].args[0] is rv or same(regs[0].args[0], rv))
         clo, pre, prekw = ev.as_closure(regs[0].args[1])
-        if clo is not None and not pre and not prekw:
+        if clo is not None:
             an, ans_s, as_, kws = (T("sym", name=x, role="param") for x in ("argnum", "ans", "args", "kwargs"))
-            body = _unseq(_expand(ev, ev.apply(clo, [an, ans_s, as_, kws], {}, []), {f"{DO}.make_vjp", "autograd.core.make_vjp"}))
+            body = _unseq(_expand(ev, ev.apply(clo, list(pre) + [an, ans_s, as_, kws], dict(prekw), []), {f"{DO}.make_vjp", "autograd.core.make_vjp"}))
             # make_vjp(fun, argnum)(*args, **kwargs)[0]
             if body.op == "sub" and body.idx.op == "const" and body.idx.value == 0 and body.obj.op == "call":
                 outer = body.obj
